@@ -319,8 +319,9 @@ class C14(Check):
             "saturated Bo and Rv increasing, undersaturated Bo and Bg(p) decreasing, viscosities positive) and written "
             "as exact decimals.  Every table node, one point inside every table segment (undersaturated lines and "
             "saturated line), the saturated line itself (p, Rs_sat(p)), interior 2-D points and points beyond every "
-            "table end are evaluated with double and Evaluation<double,3> arguments (plus four neighbours for the "
-            "difference quotients).  Non-trivial: a live-oil or wet-gas table with >= 4 outer nodes of which at "
+            "table end are evaluated with double and Evaluation<double,3> arguments (plus neighbours at +-h and "
+            "+-100h in p and Rs/Rv for the difference quotients).  Half of the saturated Rs(p)/Rv(p) curves are made "
+            "convex or concave, the others keep the drawn (possibly S-shaped) increments.  Non-trivial: a live-oil or wet-gas table with >= 4 outer nodes of which at "
             "least one non-final node has a single row (forces the extension from the master table), in a "
             "non-METRIC unit system; distinct by (units, keyword kinds, rows-per-node shape of every table).")
     ASSUMPTIONS = [
@@ -331,8 +332,18 @@ class C14(Check):
         "(only AD consistency and finiteness there)",
         "double and Evaluation results are compared to 1e-11 relative (Evaluation divides by multiplying with the "
         "reciprocal, so bit equality is not a property of the code)",
-        "derivatives are compared with one-sided difference quotients of the double-valued function; points where the "
-        "left and right quotients differ (a table kink inside the step) are skipped",
+        "derivatives are compared with difference quotients of the double-valued function for two step sizes (1e-7 and "
+        "1e-5 relative); a derivative is rejected only if it disagrees with both; a point whose left and right "
+        "quotients differ (table kink inside the step) is undecided, except along a table line at a node of that line, "
+        "where the derivative must lie between the one-sided slopes",
+        "at table nodes derivatives are checked along the table line only (across the lines several pieces of the guided "
+        "2-D interpolation meet and AD returns the gradient of one of them)",
+        "no derivative check for the compositions f(p, Rsat(p)); the rounding-noise allowance of the quotients is an "
+        "a-priori estimate (2^7 ulps of the first-order term sizes) times a safety factor 100",
+        "points beyond the last Rs (PVTO) / pressure (PVTG) node go at most one node spacing beyond it",
+        "violations of the saturation-pressure inversion on tables whose saturated curve is neither convex nor concave "
+        "carry the key psat-newton-fails-on-s-shaped-table; on convex/concave curves (where Newton's method converges "
+        "from any start) they carry no key",
         "no Rv-derivative is asserted on the first PVTG pressure line when its saturated Rv is 0 (corner of the guided "
         "interpolation where Rv/Rv_sat is 0/0)",
         "link-time placeholders for the CO2/H2 property tables (empty .inc files in this sandbox) are never read",
@@ -348,8 +359,10 @@ class C14(Check):
                   "of the saturated Rs/Rv relation by saturationPressure, closed forms for PVTW/PVCDO, and AD "
                   "derivatives against difference quotients of the double-valued function at every evaluated point.")
     LEVEL_NOTE = ("Trusted: the Eclipse keyword semantics as typed into the generator (column order, units, lone-slash "
-                  "copy rule) and the Python unit table.  Sampling only: no exhaustive part.  Derivative checks skip "
-                  "points with a table kink inside the difference step.")
+                  "copy rule) and the Python unit table.  Sampling only: no exhaustive part.  Derivative checks are "
+                  "undecided at points with a table kink inside the difference step (counted in the class histogram as "
+                  "ad:undecided-kink-or-noise).  Two genuine defects are listed in known_findings.jsonl and suppressed by "
+                  "signature only; every other point of the same deck is still judged.")
     TECHNIQUE = "property-based testing: Hypothesis deck generator, independent table/closed-form oracle, metamorphic AD-vs-difference-quotient relation"
 
     def strategy(self, tier):
@@ -517,10 +530,17 @@ class C14(Check):
             for j in range(rows):
                 p, r = pr(X[i], Y[i][j])
                 w = "%s-node" % nm
-                qs.append(Q(ph, INVB, reg, p, r, w, exp=IB[i][j], nd="p" if oil else "r"))
+                # Derivatives at a node are checked along the table line only.  Across the lines the guided
+                # interpolation moves the evaluation points on the two neighbouring lines with the outer variable, so
+                # at a node several pieces meet and the gradient AD returns (that of one of them) need not be a
+                # one-sided slope in the cross direction.
+                along = dict(ad_p=oil, ad_r=not oil)
+                qs.append(Q(ph, INVB, reg, p, r, w, exp=IB[i][j], nd="p" if oil else "r", **along))
                 # (a single-row line is extended by the library with numbers the oracle does not know)
+                if rows == 1:
+                    along = dict(ad_p=False, ad_r=False)
                 qs.append(Q(ph, MU, reg, p, r, w, exp=M[i][j], nd=("p" if oil else "r") if rows > 1 else None,
-                            curv=ratio_curv(Y[i], C[i], j)))
+                            curv=ratio_curv(Y[i], C[i], j), **along))
                 if j + 1 < rows:
                     t = nt()
                     p2, r2 = pr(X[i], Y[i][j] + t * (Y[i][j + 1] - Y[i][j]))
